@@ -2545,6 +2545,10 @@ func (p *Posix) UploadPartCopy(ctx context.Context, upi *s3.UploadPartCopyInput)
 		if err != nil && !errors.Is(err, meta.ErrNoSuchKey) {
 			return s3response.CopyPartResult{}, fmt.Errorf("get src object version id: %w", err)
 		}
+		if errors.Is(err, meta.ErrNoSuchKey) {
+			// an object without a version id attribute is the null version
+			vId = []byte(nullVersionId)
+		}
 
 		if string(vId) != srcVersionId {
 			srcBucket = filepath.Join(p.versioningDir, srcBucket)
@@ -3937,6 +3941,10 @@ func (p *Posix) CopyObject(ctx context.Context, input s3response.CopyObjectInput
 		}
 		if err != nil && !errors.Is(err, meta.ErrNoSuchKey) {
 			return nil, fmt.Errorf("get src object version id: %w", err)
+		}
+		if errors.Is(err, meta.ErrNoSuchKey) {
+			// an object without a version id attribute is the null version
+			vId = []byte(nullVersionId)
 		}
 
 		if string(vId) != srcVersionId {
